@@ -199,11 +199,11 @@ def _run_ref(params, values):
 OPTS = [("html", "bool"), ("typographer", "bool"), ("breaks", "bool"), ("xhtmlOut", "bool"), ("linkify", "bool"),
         ("langPrefix", "str"), ("maxNesting", "int"), ("inline_definitions", "bool"), ("store_labels", "bool")]
 ATTR_OPTS = ("maxNesting", "html", "linkify", "typographer", "quotes", "xhtmlOut", "breaks", "langPrefix", "highlight")
-PROBES = ["<b>a</b> \"q\" -- (c)\nb\n\n```py\nx\n```\n\n[r]: /u\n\n[r] ![i](u) ***\n\n> > > - a\n", "a  \nb *c* <i>\n\n---\n"]
+PROBES = ["<b>a</b> \"q\" --\nb  \nc\n\n```py\nx\n```\n\n[r]: /u\n\n[r] ![i](u)\n\n> > > - a\n\n---\n"]
 
 
 def _opt_free(params):
-    return [Free("oi", kind="int", lo=0, hi=len(OPTS) - 1), Free("vb", kind="bool"), Free("vs", kind="seg", maxlen=2),
+    return [Free("oi", kind="int", lo=params.get("lo", 0), hi=params.get("hi", len(OPTS) - 1)), Free("vb", kind="bool"), Free("vs", kind="char"),
             Free("vi", kind="int", lo=1, hi=5)]
 
 
@@ -331,5 +331,7 @@ def jobs(tier, seed):
             jobs.append({"harness": "definitions", "params": p, "weight": 8, "cpu_cap": 2400, "wall_cap": 3600, "path_cap": 90})
     # (4) option routes
     for base in (JS, CM):
-        jobs.append({"harness": "option_routes", "params": {"cfg": base, "name": "routes"}, "weight": 5, "cpu_cap": 900, "wall_cap": 1500})
+        for lo, hi in ((0, 2), (3, 5), (6, 8)):
+            jobs.append({"harness": "option_routes", "params": {"cfg": base, "name": "routes", "lo": lo, "hi": hi}, "weight": 12, "cpu_cap": 1500, "wall_cap": 2400,
+                         "path_cap": 90})
     return jobs
